@@ -3,6 +3,9 @@ package mon
 import (
 	"bytes"
 	"fmt"
+	"os"
+	"os/exec"
+	"path/filepath"
 	"sort"
 	"strings"
 
@@ -69,6 +72,7 @@ var c09Micro = []string{
 	"a = f(<<EOT\nx\nEOT\n)\n", "a = [<<EOT\nx\nEOT\n, 1]\n", "b \"l\" { a = 1 }\n", "b {}\n", "b { }\n", "b l {\n}\n", "b \"l\" \"m\" {\n a = 1\n}\n", "a=1\nbb=2\nccc = 3\n", "a = 1 == 1\n", "a = 1 != 1\n",
 	"a = 1 <= 2 && 2 >= 1 || !false\n", "a = x % y\n", "a = x %{a=1}.a\n", "a = 1e5 + 1.5e-3\n", "a = null\n", "a = x == null ? 1 : 0\n", "a = ns::f(1)\n", "a = x[\"k\"]\n", "a = x[y.z]\n", "a = x [y]\n",
 	"a = [1,2,]\n", "a = {\n  b = 1\n  c = 2,\n}\n", "a = ( x )\n", "a = -x.y[0]\n", "a = !x.y\n", "a = x.y.z\n", "a = x[0][1]\n", "a = \"$${x} %%{y} $ % $$ %%\"\n", "a = \"\\\"q\\\" \\\\ \\n\"\n",
+	"a = 1.5 .2\n", "a = x.0 .1 .2 .3\n", "a = 1e5 .2\n", "a = 1.5 .e5 .2\n", "a = x.0 .e5\n", "a = 1 .e5\n", "a = x.0 .E5x\n", "a = x.0 .e-5\n", "a = x.0 .e5 .e6\n", "a = x.0 /* c */ .e5\n", "a = x.0 .e\n", "a = 1e5 .e5\n", "a = 1.5 .e5\n", "a = x.0 .e5 # c", "a = [x.0 .e5]\n",
 	"a = foo.0 .1 # c\n", "a = foo.0 .1 // c\n", "a = foo.0 .1", "a = foo.0 .1 .2 # c\n", "a = foo.0 .1 .2", "a = foo. /* c */ 0 .1\n", "a = foo .0 /* c */ .1 .2\n", "a = foo.0 .1 /* c */\n",
 	"a = [foo.0 .1, 2]\n", "b { a = foo.0 .1 }\n", "a = foo[0 /* first */]\n", "a = foo[0\n]\n", "a = foo[ /* k */ \"k\" /* after */ ]\n", "a = \"${foo[0 /* c */]}\"\n", "a = x. /* c */ y\n", "a = x /* c */ [0]\n",
 	"a = 1\n\n\n\nb = 2\n", "# lead\na = 1\n", "/* lead */ a = 1\n", "a = 1 /* trail */\n", "b { # c\n}\n", "b {\n # only comment\n}\n", "a = x /*c*/ . /*d*/ y\n", "a = x.0 + y.0\n", "a = x.0[1]\n",
@@ -171,6 +175,36 @@ func c09Case(c *core.Case) {
 		return
 	}
 	c.Count("idempotence-held")
+	// the command-line front end on a file: hclfmt -w leaves exactly Format(src)
+	// in the file, a second run changes nothing and -require-no-change agrees
+	if bin := os.Getenv("HV_HCLFMT_BIN"); bin != "" && c.Index%64 == 0 {
+		dir, err := os.MkdirTemp(filepath.Join("/verif", "work"), "hclfmt-")
+		if err == nil {
+			defer os.RemoveAll(dir)
+			fn := filepath.Join(dir, "f.hcl")
+			os.WriteFile(fn, src, 0o644)
+			run1 := exec.Command(bin, "-w", fn)
+			o1, e1 := run1.CombinedOutput()
+			after, _ := os.ReadFile(fn)
+			c.Evals(1)
+			if e1 != nil {
+				c.Violation("hclfmt/-w-fails", fmt.Sprintf("hclfmt -w on a valid configuration failed: %v %s", e1, trunc(string(o1), 300)), nil)
+				return
+			}
+			if !bytes.Equal(after, out) {
+				c.Violation("hclfmt/-w-file-content", fmt.Sprintf("after hclfmt -w the file does not hold Format(src):\nfile:   %q\nFormat: %q", trunc(string(after), 500), trunc(string(out), 500)), nil)
+				return
+			}
+			run2 := exec.Command(bin, "-w", "-require-no-change", fn)
+			o2, e2 := run2.CombinedOutput()
+			again, _ := os.ReadFile(fn)
+			if e2 != nil || !bytes.Equal(again, out) {
+				c.Violation("hclfmt/second-run-changes", fmt.Sprintf("a second hclfmt -w -require-no-change on the formatted file: err=%v output=%s file=%q", e2, trunc(string(o2), 200), trunc(string(again), 300)), nil)
+				return
+			}
+			c.Count("hclfmt-cli-agreed")
+		}
+	}
 	if len(srcToks) >= 12 && !bytes.Equal(src, out) {
 		c.NonTrivial(string(src))
 	}
